@@ -175,7 +175,7 @@ def compare_tables(ctx, tag, sig, base, other, probe, fscale, T, tol, exact_nan=
         ctx.maxi(f"{tag.split('@')[0]}: worst (f,xi) distance on judged columns", d)
         ctx.maxi(f"{tag.split('@')[0]}: worst 1-MAC on judged columns", ds)
         tol_c = max(tol, 100 * dp, 100 * dsp)  # BLAS results are not bitwise reproducible: never tighter than 100x the rounding probe
-        if d > tol_c or ds > tol_c:
+        if not (d <= tol_c) or not (ds <= tol_c):
             ctx.fail(f"{sig}:poles_differ", f"{tag}: column {c}: (f, xi) distance {d:.3e}, 1-MAC {ds:.3e} (tolerance {tol_c:.0e}; rounding probe moved this column by {dp:.1e})")
             return judged
         # unit normalisation of every shape of the transformed run
